@@ -184,7 +184,7 @@ pub fn run(ctx: &mut Ctx) {
         let n = if thorough { 4 } else { 3 };
         for nn in 2..=n {
             let dags = all_dags(nn);
-            ctx.space(&format!("binary/D{nn}"), &format!("{} labelled DAGs over {:?} x 2^{nn} subsets; v3: all orders of term records, parent records, gene records, omim records (one section at a time), reversed ids inside records; v1/v2: reversed sections", dags.len(), &POOL_ROOTS[..nn]));
+            ctx.space(&format!("binary/D{nn}"), &format!("{} labelled DAGs over {:?} x 2^{nn} subsets; v3: all orders of term records, parent records, gene, omim and orpha records (one section at a time), reversed ids inside records; v1/v2: all term-record orders, reversed sections; odd subsets carry obsolete / replacement flags", dags.len(), &POOL_ROOTS[..nn]));
             for d in &dags {
                 for s in 0..(1u32 << nn) {
                     if !ctx.take() {
@@ -199,7 +199,14 @@ pub fn run(ctx: &mut Ctx) {
                     let mut anns = groups.interleaved();
                     anns.push(Facts::ann(crate::model::Kind::Omim, 600_003, "Disease three", Some(ids[0])));
                     anns.push(Facts::ann(crate::model::Kind::Orpha, 88, "Orpha extra", Some(ids[nn - 1])));
-                    let base = Facts { anns, ..base };
+                    let mut base = Facts { anns, ..base };
+                    // odd subsets: the last term is obsolete and replaced by the one before it, which in turn names
+                    // the last one as replacement without being obsolete (flags must survive any record order)
+                    if s % 2 == 1 && nn >= 3 {
+                        base.terms[nn - 1].obsolete = true;
+                        base.terms[nn - 1].replacement = Some(ids[nn - 2]);
+                        base.terms[nn - 2].replacement = Some(ids[nn - 1]);
+                    }
                     if base.edges.len() >= 1 {
                         ctx.nontrivial();
                     }
